@@ -1,5 +1,5 @@
 (** Boolean comparators evaluated by the correspondence check of C14 (VersionNum). *)
-From Rocfl Require Import Base.Bytes Model.VersionNum Model.Known.
+From Rocfl Require Import Base.Bytes Model.VersionNum.
 Open Scope N_scope.
 
 Definition res_vnum_eqb (a c : res vnum) : bool :=
@@ -18,4 +18,9 @@ Definition check_parse (s : bytes) (obs : res vnum) : bool :=
   res_vnum_eqb (vparse s) obs.
 Definition check_display (n w : N) (obs : bytes) : bool :=
   bytes_eqb (vdisplay (mkV n w)) obs.
-Definition known_next (n w : N) : bool := c14_overflow (mkV n w).
+(** compact forms for very wide paddings (the literal strings would be tens of thousands of
+    characters): the observed string is "v" ++ zeros x '0' ++ digits *)
+Definition check_display_padded (n w zeros : N) (digits : bytes) : bool :=
+  bytes_eqb (vdisplay (mkV n w)) ("v"%char :: replicate (N.to_nat zeros) "0"%char ++ digits).
+Definition check_parse_padded (zeros : N) (digits : bytes) (obs : res vnum) : bool :=
+  res_vnum_eqb (vparse ("v"%char :: replicate (N.to_nat zeros) "0"%char ++ digits)) obs.
